@@ -262,7 +262,7 @@ def run(prop, tier):
         ctx.part("short-pwrite", cases=len(sw))
         # look-back window too small: must not claim success on an unsorted stream
         lb = []
-        for (cl, pl) in (shapes(4, (0, 1, 2), 1) if tier == "quick" else shapes(5, (0, 1, 2), 1)):
+        for (cl, pl) in (shapes(5, (0, 1, 2), 1) if tier == "quick" else shapes(6, (0, 1, 2), 1)):
             if not pl:
                 continue
             for n in (3, 4, 6):
